@@ -38,6 +38,8 @@ TABLE = [
     ("lexicase selection reshuffles the cases", "C17", "lexicase: only the first winner of a pass was filtered, later winners were drawn unfiltered"),
     ("FullInitializer(max_depth) never exceeds max_depth", "C03", "FullInitializer(d) / PositionIndependentGrowInitializer(d) returned trees of depth d+1 on grammars where FullDecider's fallback is taken (also C04: programs outside L(G,d))"),
     ("a multi-objective evaluation invokes the fitness function once", "C13", "MultiObjectiveProblem.evaluate invoked the fitness function twice per evaluation (default aggregate recomputed it); counter != invocations; aggregate not from the recorded components (also C12 with a non-repeatable landscape)"),
+    ("stack mapping treats an abstract type without productions", "C01", "stack mapping raised KeyError for an abstract type that has no production (shape S22)"),
+    ("usable_grammar accepts reachable abstract types", "C05", "usable_grammar hit 'assert False' on a reachable abstract type without productions (shape S22)"),
     ("each FitnessK column of the CSV log", "C20", "every FitnessK column of the CSV log held the last fitness component (late-binding closure)"),
     ("SimpleGP's extra CSV fields each call their own callback", "C20", "every SimpleGP csv_extra_fields column was computed with the last callback (late-binding closure)"),
 ]
